@@ -1137,6 +1137,7 @@ def rule_c18(prog, rep):   # noqa: F811  (supersedes the event-list version abov
     rule_fnv_vg(prog, rep, 'qhashfnv1_64', 0xCBF29CE484222325, 0x100000001B3, 64, 'H4-fnv')
     rule_md5_vg(prog, rep)
     rule_md5_pad(prog, rep)
+    rule_md5_file_loop(prog, rep)
     rule_h6(prog, rep)
 
 
@@ -1234,3 +1235,83 @@ def rule_md5_pad(prog, rep, rid='H7'):
         if not ok:
             rep.violation(rid, f, f.line, 'padorder', 'the 64-bit bit count must be encoded before the padding is fed to MD5Update (which '
                           'advances the count) and appended as the last 8 bytes')
+
+
+def rule_md5_file_loop(prog, rep, rid='H8'):
+    """qhashmd5_file, read-loop form: each MD5Update that digests the read buffer is given exactly the byte count the read
+    returned; that count is used (as a length, and to decrement the remaining count) only where it is known to be >= 0; the
+    read never asks for more than the remaining count; the file is positioned at the offset before the loop."""
+    from .index import Facts
+    rep.rule(rid, 'file digest loop: MD5Update gets the byte count the read returned, that count is used only when >= 0, a read '
+                  'never exceeds the remaining count, the file is positioned at the requested offset first')
+    f = prog.func('qhashmd5_file')
+    if f is None or f.body is None:
+        return
+    reads = []
+    for n in f.cfg.nodes:
+        if not isinstance(n.ast, dict) or n.kind == 'macro':
+            continue
+        for x in walk(n.ast):
+            if x.get('kind') == 'BinaryOperator' and x.get('opcode') == '=' and strip(children(x)[1]).get('kind') == 'CallExpr' \
+                    and prog.callee_name(strip(children(x)[1])) == 'read':
+                call = strip(children(x)[1])
+                reads.append((n, canon(children(x)[0]), canon(children(call)[2]), children(call)[3], call))
+    if not reads:
+        return          # another I/O form (e.g. a mapping): not decided by this rule
+    facts = Facts(f)
+    resvars = {r[1] for r in reads}
+    bufs = {r[2] for r in reads}
+    # (c) read size <= remaining count
+    for (n, res, buf, size, call) in reads:
+        rep.instance(rid)
+        sz = canon(strip(size))
+        fa = facts.at(n)
+        rem = None
+        ok = False
+        # read(fd, buf, toread)  - the remaining count itself; or read(fd, buf, K) under the must-fact remaining > K / >= K
+        for (a, op, b, dom) in fa:
+            if b == sz and op in ('>', '>='):
+                ok = True
+                rem = a
+        if not ok:
+            # the size is the loop's remaining-count variable: the variable decremented by the read result
+            for x in walk(f.body):
+                if x.get('kind') == 'CompoundAssignOperator' and x.get('opcode') == '-=' and canon(strip(children(x)[1])) in resvars \
+                        and canon(children(x)[0]) == sz:
+                    ok = True
+        rep.oblige(rid, ok, {'read': canon(call)[:60], 'line': call.get('_line')})
+        if not ok:
+            rep.violation(rid, f, call.get('_line'), 'readsize:%s' % sz[:20], '%s may ask for more bytes than remain in the requested range'
+                          % canon(call)[:60])
+    # (a)+(b) uses of the read result
+    for n in f.cfg.nodes:
+        if not isinstance(n.ast, dict) or n.kind == 'macro':
+            continue
+        for x in walk(n.ast):
+            use = None
+            if x.get('kind') == 'CallExpr' and prog.callee_name(x) == 'MD5Update' and len(children(x)) >= 4 and canon(children(x)[2]) in bufs:
+                rep.instance(rid)
+                ln = canon(strip(children(x)[3]))
+                ok = ln in resvars
+                rep.oblige(rid, ok, {'update': canon(x)[:60]})
+                if not ok:
+                    rep.violation(rid, f, x.get('_line'), 'updatelen', '%s digests %s bytes of the read buffer, not the count the read returned'
+                                  % (canon(x)[:50], ln))
+                use = ln if ok else None
+            elif x.get('kind') == 'CompoundAssignOperator' and x.get('opcode') in ('-=', '+=') and canon(strip(children(x)[1])) in resvars:
+                use = canon(strip(children(x)[1]))
+            if use is None:
+                continue
+            rep.instance(rid)
+            ok = any(a == use and ((op == '>=' and b == '0') or (op == '>' and b in ('0', '-1'))) for (a, op, b, dom) in facts.at(n))
+            rep.oblige(rid, ok, {'use': canon(x)[:60], 'line': x.get('_line')})
+            if not ok:
+                rep.violation(rid, f, x.get('_line'), 'negcount:%s' % use, '%s uses the read result %s on a path on which it is not known to be '
+                              '>= 0 (a failed read returns -1): the remaining count grows / a bogus length is digested' % (canon(x)[:50], use))
+    # (d) positioned at the offset
+    rep.instance(rid)
+    ok = any(x.get('kind') == 'CallExpr' and prog.callee_name(x) in ('lseek', 'pread') and any('offset' in canon(a) for a in children(x)[1:])
+             for x in walk(f.body))
+    rep.oblige(rid, ok, {'seek_to_offset': ok})
+    if not ok:
+        rep.violation(rid, f, f.line, 'seek', 'the file is never positioned at the requested offset')
